@@ -1423,6 +1423,12 @@ pub fn build(full_name: &str, level: u8) -> Option<Scenario> {
         _ => return None,
     }
     s.mem_compact = memq;
+    // "-gpv": pre_vote on every node, whatever the family
+    if name.contains("-gpv") {
+        for nd in s.nodes.iter_mut() {
+            nd.pre_vote = true;
+        }
+    }
     // "-api": every public RawNode entry point is offered to a clone in every state (C20)
     s.api_probe = name.contains("-api");
     if name.contains("-split") {
